@@ -370,7 +370,21 @@ func (c *Ctx) backlogThenRegister() {
 		}
 		e, ok := ir.Strip(ia.X).(*ssa.Extract)
 		if ok && e.Index == 0 && valIsCallTo(since)(e.Tuple) {
-			starts = append(starts, afterInstr(c, in))
+			// the loop that delivers (a loop that only inspects the backlog
+			// beforehand delivers nothing, and need not)
+			h := ir.LoopHeaderOf(in.Block())
+			delivers := h == nil
+			if h != nil {
+				blocks := ir.LoopBlocks(h)
+				for _, d := range find(fn, one) {
+					if blocks[d.Block()] {
+						delivers = true
+					}
+				}
+			}
+			if delivers {
+				starts = append(starts, afterInstr(c, in))
+			}
 		}
 	})
 	c.mustFollowIter(fn, "each backlog notification", starts, one, "m.notifySubscriber(sub, block)", nil, 1)
